@@ -44,14 +44,23 @@ def float_run(content, sig, inputs, want_tensors=False):
 
 
 def admit(content, sig, inputs):
-  """Float model must allocate, invoke and give finite outputs."""
+  """Float model must allocate, invoke and keep every float tensor finite (an overflowing intermediate can hide behind a squashing
+  operator -- tanh(inf) = 1 -- and leaves statistics no finite scale can represent)."""
   try:
-    outs, _ = float_run(content, sig, inputs)
+    outs, tens = float_run(content, sig, inputs, want_tensors=True)
   except Exception as e:  # pylint: disable=broad-except
     return False, f'{type(e).__name__}: {str(e)[:200]}'
   for k, v in outs.items():
     if not np.all(np.isfinite(v)):
       return False, 'non-finite float output'
+  declared = None
+  for name, (det, v) in (tens or {}).items():
+    if v.dtype == np.float32 and v.size and not np.all(np.isfinite(v)):
+      if declared is None:
+        from vf.gen import models
+        declared = {t.name.decode() for sg in models.read(content).subgraphs for t in sg.tensors}
+      if name in declared:       # interpreter scratch tensors hold uninitialised memory
+        return False, 'non-finite float activation'
   return True, ''
 
 
